@@ -207,8 +207,15 @@ int32_t chooseSkeSigAlgTls12(ssl_t *ssl, sslIdentity_t *id)
     {
         if (ssl->peerSigAlg != 0)
         {
-            /* Got signature_algorithms in ClientHello. */
-            sigAlgMask = ssl->peerSigAlg;
+            /* Got signature_algorithms in ClientHello: sign with one the
+               client offered and this session allows (hashSigAlg holds
+               the client's algorithms that are in our own list). */
+            sigAlgMask = ssl->peerSigAlg & ssl->hashSigAlg;
+            if (sigAlgMask == 0)
+            {
+                psTraceInfo("No signature algorithm in common for SKE\n");
+                return PS_UNSUPPORTED_FAIL;
+            }
         }
         else
         {
